@@ -65,6 +65,7 @@ type rewriter struct {
 	tmpN  int
 	stats map[string]int
 	errs  *[]string
+	encl  map[*ast.GoStmt]string // enclosing function of every go statement
 }
 
 func id(name string) *ast.Ident { return ast.NewIdent(name) }
@@ -208,7 +209,7 @@ func (r *rewriter) rewriteGo(g *ast.GoStmt) ast.Stmt {
 	r.used = true
 	r.stats["go"]++
 	pos := r.fset.Position(g.Pos())
-	label := strLit(fmt.Sprintf("%s:%d", filepath.Base(pos.Filename), pos.Line))
+	label := strLit(fmt.Sprintf("%s/%s:%d", r.encl[g], filepath.Base(pos.Filename), pos.Line))
 	c := g.Call
 	if fl, ok := c.Fun.(*ast.FuncLit); ok && len(c.Args) == 0 {
 		return &ast.ExprStmt{X: call(vs("Go"), label, fl)}
@@ -319,6 +320,26 @@ func (r *rewriter) applyHooks(fd *ast.FuncDecl) {
 		return
 	}
 	rt := recvTypeName(fd)
+	// R12: process-wide switches become per-thread attributes so that the two ends of a transfer can
+	// differ inside one process: isWindowsEnvironment() also holds on threads flagged "win".
+	if rt == "" && fd.Name.Name == "isWindowsEnvironment" && len(fd.Body.List) == 1 {
+		if ret, ok := fd.Body.List[0].(*ast.ReturnStmt); ok && len(ret.Results) == 1 {
+			ret.Results[0] = &ast.BinaryExpr{X: ret.Results[0], Op: token.LOR, Y: call(vs("Flag"), strLit("win"))}
+			r.used = true
+			r.stats["flagfn"]++
+		}
+	}
+	// R13: listenForTunnel() opens a fake listener under the scheduler
+	if rt == "" && fd.Name.Name == "listenForTunnel" && fd.Type.Results != nil && len(fd.Type.Results.List) == 2 {
+		st := &ast.IfStmt{
+			Init: define([]ast.Expr{id("zzv_l"), id("zzv_p")}, []ast.Expr{call(vs("Listen"))}),
+			Cond: &ast.BinaryExpr{X: id("zzv_l"), Op: token.NEQ, Y: id("nil")},
+			Body: &ast.BlockStmt{List: []ast.Stmt{&ast.ReturnStmt{Results: []ast.Expr{id("zzv_l"), id("zzv_p")}}}},
+		}
+		fd.Body.List = append([]ast.Stmt{st}, fd.Body.List...)
+		r.used = true
+		r.stats["listenfn"]++
+	}
 	for _, h := range Hooks {
 		if h.Recv != rt || h.Func != fd.Name.Name {
 			continue
@@ -424,9 +445,20 @@ func (r *rewriter) applyTouches(f *ast.File) {
 
 func (r *rewriter) file(f *ast.File) {
 	// R9 first (uses type info of the original nodes)
+	r.encl = map[*ast.GoStmt]string{}
 	for _, d := range f.Decls {
 		if fd, ok := d.(*ast.FuncDecl); ok {
 			r.applyHooks(fd)
+			name := fd.Name.Name
+			if rt := recvTypeName(fd); rt != "" {
+				name = rt + "." + name
+			}
+			ast.Inspect(fd, func(n ast.Node) bool {
+				if g, ok := n.(*ast.GoStmt); ok {
+					r.encl[g] = name
+				}
+				return true
+			})
 		}
 	}
 	r.applyTouches(f)
@@ -612,6 +644,12 @@ func Generate(repo, verif, out string) (string, map[string]int, error) {
 			return "", nil, err
 		}
 		replace[src] = dst
+	}
+	if total["listenfn"] != 1 {
+		errs = append(errs, "listenForTunnel() not found in the expected form (rule R13)")
+	}
+	if total["flagfn"] != 1 {
+		errs = append(errs, "isWindowsEnvironment() not found in the expected one-statement form (rule R12)")
 	}
 	if len(errs) > 0 {
 		return "", nil, fmt.Errorf("constructs the instrumentation cannot express:\n%s", strings.Join(errs, "\n"))
